@@ -6,6 +6,8 @@
 #![allow(dead_code, unused_imports)]
 mod alpha;
 mod astobs;
+mod compobs;
+mod crashobs;
 mod descobs;
 mod input;
 mod interp;
@@ -62,6 +64,8 @@ fn main() {
             "psbt" => psbtobs::run_case(&u, &case),
             "tap" => tapobs::run_case(&u, &case),
             "desc" => descobs::run_case(&u, &case),
+            "compile" => compobs::run_case(&u, &case),
+            "crash" => crashobs::run_case(&u, &case),
             "translate" => transobs::run_case(&u, &case),
             _ => {
                 eprintln!("unknown command {}", cmd);
